@@ -24,7 +24,7 @@ COMPONENTS = {"real": ["pyjelly frame iterator, Decoder living across frames, fl
                        "shared Stream, Graphs/DatasetsFrameFlow"],
               "stub": ["reframe fault (simkit.wire row slicing: rows are never re-encoded)", "oracle: simkit.refdec"]}
 ASSUMPTIONS = ["frames produced for empty inputs are not judged", "rdflib sinks compared as sets"]
-PROBES = ["big_group_runs", "reframe_runs", "grouped_write_runs", "empty_frames_inserted", "metadata_frames", "leading_empty_frame",
+PROBES = ["big_group_runs", "grouped_write_flat_logical", "reframe_runs", "grouped_write_runs", "empty_frames_inserted", "metadata_frames", "leading_empty_frame",
           "single_row_frames", "rdflib_runs", "empty_inputs", "physical_GRAPHS"]
 SHRINK_LISTS = ["ops", "items"]
 
@@ -66,10 +66,12 @@ def gen_grouped(rng):
     mp, mn, md = c01.fit_tables(rng, stmts, [], sizes, physical)
     if md == 0 and W.has_datatypes(stmts):
         md = max(1, W.max_needs(stmts)[2])
-    logical = rng.choice([3, 13]) if physical == "TRIPLES" else rng.choice([4, 14, 114])
+    logical = rng.choice([3, 13, 1]) if physical == "TRIPLES" else rng.choice([4, 14, 114, 2])
+    if physical == "GRAPHS" and logical == 2:
+        logical = 4
     groups = c01.split_groups(rng, len(stmts)) if not big else [len(stmts) - len(stmts) // 3, len(stmts) // 3]
     if rng.random() < 0.3 and len(groups) > 1:
-        groups.insert(rng.randint(1, len(groups)), 0)     # an empty input in the middle / at the end
+        groups.insert(rng.randint(0, len(groups)), 0)     # an empty input first / in the middle / at the end
     entry = "grouped_file" if physical != "GRAPHS" else "shared_stream"
     if rng.random() < 0.3:
         entry = "shared_stream"
@@ -234,7 +236,17 @@ def judge_grouped(plan, sim, cfg, integration, stmts, groups, data):
     got_frames = [[tuple(T.norm(t) for t in st) for st in fi if st[0] != "ns"] for fi in ref.frames_items]
     got_frames = [f for f in got_frames if f]
     v = []
-    if len(got_frames) != len(nonempty):
+    if cfg["logical"] in (1, 2):
+        # a flat logical type bounds frames by rows: only the content is promised (one frame per input is
+        # promised "with a grouped logical type")
+        sim.count("grouped_write_flat_logical")
+        flat_got = [s for f in got_frames for s in f]
+        flat_in = [T.norm_stmt(s) for g in nonempty for s in g]
+        ok = flat_got == flat_in if integration == "generic" else set(flat_got) == c02.expected_set([s for g in nonempty for s in g])
+        if not ok:
+            v.append({"clause": "C07.grouped_write_content", "sig": {"entry": cfg["entry"]},
+                      "msg": f"flat logical type: wrote {flat_got!r} for inputs {nonempty!r}"})
+    elif len(got_frames) != len(nonempty):
         v.append({"clause": "C07.frames_per_input", "sig": {"entry": cfg["entry"]},
                   "msg": f"{len(nonempty)} non-empty inputs, {len(got_frames)} frames with statements "
                          f"(sizes {[len(f) for f in got_frames]} vs inputs {[len(g) for g in nonempty]})"})
